@@ -196,6 +196,27 @@ theorem reset_spec (c : Col) (h : SlackZero c) :
       rw [Array.getD_eq_getD_getElem?]
       by_cases hi : i < c.buf.size <;> simp [hi]
 
+/-! ## the buffer's capacity is the `cap` the world model tracks (and the hook reports) -/
+
+theorem capOf_eq_capacity (size inc : Nat) : Col.capOf size inc = Arche.capacity size inc := rfl
+
+/-- a column whose length and capacity agree with a table of the world model keeps agreeing
+    through `extend` (hence through `Alloc` / `AllocN`): the capacities compared with the
+    implementation on every `shape` observation are the sizes of these buffers -/
+theorem extend_cap (c : Col) (t : Table) (capInc by_ : Nat) (hi : 0 < capInc) (hl : c.len = t.rows.size) (hc : c.buf.size = t.cap)
+    (hfit : c.len ≤ c.buf.size) :
+    (c.extend capInc by_).buf.size = (t.extend capInc by_).cap := by
+  unfold Col.extend Table.extend
+  simp only []
+  rw [hl, hc]
+  split
+  · exact hc
+  · rename_i hlt
+    simp only [Array.size_append, Array.size_replicate]
+    have := capOf_ge (t.rows.size + by_) capInc hi
+    rw [capOf_eq_capacity] at *
+    omega
+
 /-! ## the row model is the abstraction of the buffer model -/
 
 theorem live_size (c : Col) (h : SlackZero c) : c.live.size = c.len := by
